@@ -151,6 +151,13 @@ theorem C12_justifyOpts_code_points {V : List (List Int)} (hV : VocabStable V = 
       (Editor.justifyOpts cxB ed width o).map Editor.flat :=
   justifyOpts_bridge hV hsp hspTail ed ht width o hpp hS
 
+/- `hAL` (the letter `A` is not a rune of the line separator) was added with the repair of defect D18:
+JustifyOpts pads a paragraph with stand-ins for the paragraph separator's affixes — the letter `A`,
+since the repair another letter (`cxA.placeholder`, `C07_wrapOpts_para_placeholder_fresh`) when the
+line separator contains `A` — and the other letter need not be a cluster of `V`.  Before the repair
+the theorem held for such separators too, but only because both levels ran the same defective
+algorithm (the stand-ins were split off as lines of their own, so the last line of a paragraph was
+justified although JustifyLastLine was off). -/
 /-- the same in paragraph mode (vocabulary also contains the placeholder `A` the code pads paragraphs with) -/
 theorem C12_justifyOpts_code_points_para {V : List (List Int)} (hV : VocabStable V = true)
     (hsp : [0x20] ∈ V)
@@ -161,9 +168,31 @@ theorem C12_justifyOpts_code_points_para {V : List (List Int)} (hV : VocabStable
     (width : Int)
     (o : Options (List Int))
     (hpp : o.preservePara = true)
-    (hG : GoodPara V (o.withDefaults cxB).lineSep (o.withDefaults cxB).paraSep) :
+    (hG : GoodPara V (o.withDefaults cxB).lineSep (o.withDefaults cxB).paraSep)
+    (hAL : (0x41 : Int) ∉ ((o.withDefaults cxB).lineSep).flatten) :
     Editor.justifyOpts cxA ed.flat width o.flat =
       (Editor.justifyOpts cxB ed width o).map Editor.flat :=
-  justifyOpts_bridge_para hV hsp hA hspTail ed ht width o hpp hG
+  justifyOpts_bridge_para hV hsp hA hspTail ed ht width o hpp hG hAL
+
+open RosedVerif.BridgeEditorParas in
+/-- the hypotheses are satisfiable: the default separators, any text over `demoVocabA` -/
+example (toks : List (List Int)) (ht : ∀ t ∈ toks, t ∈ demoVocabA) (width : Int)
+    (o0 o : Options (List Int)) (hpp : o.preservePara = true) (hl : o.lineSep = [])
+    (hp : o.paraSep = []) :
+    Editor.justifyOpts cxA (.root toks.flatten o0.flat) width o.flat =
+      (Editor.justifyOpts cxB (.root toks o0) width o).map Editor.flat :=
+  C12_justifyOpts_code_points_para demoVocabA_stable (by decide) (by decide)
+    (BridgeWrap.spTail_of_spOnly (by decide)) (.root toks o0) ht width o hpp
+    (by rw [(default_seps o hl hp).1, (default_seps o hl hp).2]; exact demoVocabA_goodPara)
+    (by rw [(default_seps o hl hp).1]; decide)
+
+/-- the witness of D18's second site: `"x y\n\nz w"` justified to width 5 in paragraph mode with the line
+separator `"A"` is unchanged (each paragraph's only line is its last line; stand-in `B`); before the repair
+the first paragraph came out as `"x   y"` -/
+theorem C12_justifyOpts_para_D18_witness :
+    (Editor.justifyOpts cxA (.root [0x78, 0x20, 0x79, 0x0A, 0x0A, 0x7A, 0x20, 0x77] {}) 5
+        { preservePara := true, lineSep := [0x41] }).map Editor.text =
+      .ok [0x78, 0x20, 0x79, 0x0A, 0x0A, 0x7A, 0x20, 0x77] :=
+  BridgeWrap.of_okEq (by decide +kernel)
 
 end RosedVerif.Props
